@@ -2,8 +2,9 @@
    Executable transcription over Z of /repo/crypto/stateproof/weights.go
    (getSubExpressions, verifyWeights, numReveals) and of the rejection sampling of
    coinGenerator.go (prepareRejectionSamplingThreshold, getNextCoin).  big.Int arithmetic
-   is exact, so Z is exact; the two places where the Go code leaves big.Int are explicit:
-   [(numerator/denom).Uint64() + 1] is [(q mod 2^64 + 1) mod 2^64].
+   is exact, so Z is exact.  [numReveals] is the code with /verif/fixes/C38.patch applied;
+   [numReveals_unfixed] is the code before it, where [(numerator/denom).Uint64() + 1] is
+   [(q mod 2^64 + 1) mod 2^64].
    LnIntApproximation (float64) is NOT modelled: lnProvenWeight is an input.
    No proofs in this file; it also holds the executable [check]. *)
 From Coq Require Import ZArith List Bool String.
@@ -47,6 +48,13 @@ Definition verifyWeights (sw lnPW n st : Z) : wres unit :=
 Definition numerator (sw st : Z) : Z := st * ln2Int * subY sw.
 Definition denom (sw lnPW : Z) : Z := subX sw + (subW sw - lnPW) * subY sw.
 
+(* numReveals as in /verif/fixes/C38.patch (the quotient is range-checked before the
+   conversion to uint64):
+     quotient := numerator.Div(numerator, denom)
+     if !quotient.IsUint64() || quotient.Uint64() >= MaxReveals { return 0, ErrTooManyReveals }
+     return quotient.Uint64() + 1, nil *)
+Definition isUint64 (z : Z) : bool := (0 <=? z) && (z <? two64).
+
 Definition numReveals (sw lnPW st : Z) : wres Z :=
   if sw <=? 0 then WPanic
   else
@@ -54,7 +62,19 @@ Definition numReveals (sw lnPW st : Z) : wres Z :=
     let de := denom sw lnPW in
     if de <=? 0 then WErr ErrNegativeNumOfRevealsEquation
     else
-      (* numerator.Div(numerator, denom).Uint64() + 1 : low 64 bits, then uint64 add *)
+      let q := nu / de in
+      if negb (isUint64 q) || (q >=? MaxReveals) then WErr ErrTooManyReveals
+      else WOk (q + 1).
+
+(* numReveals before the fix:  res := numerator.Div(numerator, denom).Uint64() + 1;
+   if res > MaxReveals { error }  -- Uint64() keeps the low 64 bits, + wraps in uint64 *)
+Definition numReveals_unfixed (sw lnPW st : Z) : wres Z :=
+  if sw <=? 0 then WPanic
+  else
+    let nu := numerator sw st in
+    let de := denom sw lnPW in
+    if de <=? 0 then WErr ErrNegativeNumOfRevealsEquation
+    else
       let res := ((nu / de) mod two64 + 1) mod two64 in
       if res >? MaxReveals then WErr ErrTooManyReveals else WOk res.
 
